@@ -92,6 +92,27 @@ func (P *Prog) modeConfigs() []*modeConfig {
 										mc.global = g.Name()
 									}
 								}
+								// handed through a must-style helper that returns
+								// this very argument (and panics otherwise)
+								if c2, ok := r2.(*ssa.Call); ok && c2.Referrers() != nil {
+									h := c2.Call.StaticCallee()
+									pi := -1
+									for i, a := range c2.Call.Args {
+										if a == ssa.Value(u) {
+											pi = i
+										}
+									}
+									if h == nil || pi < 0 || !P.inPkg(h) || !returnsParam(h, pi) {
+										continue
+									}
+									for _, r3 := range *c2.Referrers() {
+										if st, ok := r3.(*ssa.Store); ok && st.Val == ssa.Value(c2) {
+											if g, ok := st.Addr.(*ssa.Global); ok {
+												mc.global = g.Name()
+											}
+										}
+									}
+								}
 							}
 						case *ssa.Store:
 							if g, ok := u.Addr.(*ssa.Global); ok && u.Val == v {
@@ -702,4 +723,25 @@ func (P *Prog) constGlobalMap(name string) (map[string]string, bool) {
 		}
 	}
 	return out, true
+}
+
+// returnsParam: every Return of h hands back parameter i as its only result
+// (the other ways out of h are panics).
+func returnsParam(h *ssa.Function, i int) bool {
+	n := 0
+	for _, b := range h.Blocks {
+		ret, ok := b.Instrs[len(b.Instrs)-1].(*ssa.Return)
+		if !ok {
+			continue
+		}
+		if len(ret.Results) != 1 {
+			return false
+		}
+		p, ok := ret.Results[0].(*ssa.Parameter)
+		if !ok || paramIndex(p) != i {
+			return false
+		}
+		n++
+	}
+	return n > 0
 }
